@@ -60,7 +60,13 @@ def generate(src):
             reaped_dead=ForAll([p], Implies(g['reaped'][p], Not(g['alive'][p]))),
             pids=ForAll([j], Implies(And(0 <= j, j < NW), truthy(h.field('pid')[W(st, j)]))),
         )
-    State.env_restarts = lambda s: Val.i(to_val(s.env['restarts'])) if not isinstance(s.env['restarts'], PyInt) else s.env['restarts'].e
+    # role binding: the failure counter is the local compared with self.args.max_fails
+    cmp_ = [n_ for n_ in ast.walk(PM['start']) if isinstance(n_, ast.Compare) and isinstance(n_.left, ast.Name) and len(n_.comparators) == 1 and ast.unparse(n_.comparators[0]) == 'self.args.max_fails']
+    if len({n_.left.id for n_ in cmp_}) != 1: raise Unsupported("ProcessManager.start: expected one local compared with self.args.max_fails (the failure counter)")
+    RESTARTS = cmp_[0].left.id
+    # the counter's current value is mirrored in the ghost state (so that invariants can be evaluated inside inlined helpers, whose environment holds only their parameters)
+    def _as_int(v): return v.e if isinstance(v, PyInt) else (IntVal(v) if isinstance(v, int) else Val.i(to_val(v)))
+    State.env_restarts = lambda s: _as_int(s.env[RESTARTS]) if RESTARTS in s.env else s.ghost['restarts_mirror']
     def Inv_drain(st):
         g = st.ghost; d = Inv_outer(st)
         d['drain_bounds'] = And(g['h0'] <= g['head'], g['h0'] <= g['t0'], g['t0'] <= g['tail'])
@@ -118,7 +124,9 @@ def generate(src):
         st.pc.append(h.cls_of[a] == RONE); st.facts.append(ForAll([p], Implies(p < st.ghost['tail'], st.ghost['hist'][p] != a)))      # freshly allocated
         h.fld['worker_num'] = Store(h.field('worker_num'), a, to_val(kw['worker_num'])); h.fld['is_reload_all'] = Store(h.field('is_reload_all'), a, to_val(kw['is_reload_all']))
         return k(st, PyObj(a, 'action'))
+    kill_sites_seen = set()
     def h_os_kill(ex, st, e, recv, args, kw, k, K):
+        kill_sites_seen.add((getattr(e, 'lineno', None), getattr(e, 'col_offset', None)))
         pid = to_val(args[0]); g = st.ghost; h = st.heap; i = st.env.get('__i')
         if i is None:
             oblige(st, "start/os.kill: only inside the shutdown loop over the manager's own workers  [C18]", BoolVal(False)); return k(st, None)
@@ -270,6 +278,9 @@ def generate(src):
                 'isinstance': h_isinstance, 'len': h_len, 'ReloadOneAction': h_ReloadOneAction, 'os.kill': h_os_kill, 'os.getpid': h_getpid, '*.is_alive': h_is_alive, '*.terminate': h_terminate, '*.join': h_join,
                 'Process': h_Process, '*.start': h_start, 'Event': h_event, 'list.append': h_list_append, '_wait_for_worker_startup': h_wait_startup, 'action.handle': h_action_handle, 'reloaded_workers.add': h_set_add, '@for': h_for}
     class Ex(Exec):
+        def assign(self, tgt, v, st, k, K):
+            if isinstance(tgt, ast.Name) and tgt.id == RESTARTS: setG(st, restarts_mirror=_as_int(v))
+            return super().assign(tgt, v, st, k, K)
         def ev_Compare(self, e, st, k, K):
             if isinstance(e.ops[0], ast.In) and ast.unparse(e.comparators[0]) == 'reloaded_workers':
                 return self.ev(e.left, st, lambda s, v: k(s, PyBool(s.ghost['reloaded'][self.as_int(v)])), K)
@@ -279,6 +290,7 @@ def generate(src):
             if path in ('signal.SIGINT', 'new_process.pid', 'new_process.name', 'worker.name'): return k(st, fresh('x'))
             return super().ev_Attribute(e, st, k, K)
     ex = Ex(handlers, attr_kinds={'self.workers': 'list', 'self.args': 'obj', 'self.action_queue': 'obj'})
+    Ex.inline_scope = (src, REL, 'ProcessManager')          # helpers extracted from start()/handle() are executed with their real body
 
     # ---------- verify one full iteration of the OUTER loop of ProcessManager.start: sleep; drain; scan  -- "two ticks"
     start = PM['start']; outer = [s for s in start.body if isinstance(s, ast.While)][0]
@@ -287,7 +299,7 @@ def generate(src):
         d['pending_for_dead'] = ForAll([j], Implies(And(0 <= j, j < NW, g['needs'][j]), And(g['head'] <= g['qpos'](j), g['qpos'](j) < g['tail'], st.heap.cls_of[g['hist'][g['qpos'](j)]] == RONE,
                                      st.heap.field('worker_num')[g['hist'][g['qpos'](j)]] == Val.intv(j))))
         return d
-    st = init_state(""); base_heap(st); st.env = {'self': PyObj(self_a, 'pm'), 'restarts': PyInt(Int('restarts'))}
+    st = init_state(""); base_heap(st); st.env = {'self': PyObj(self_a, 'pm'), RESTARTS: PyInt(Int('restarts'))}; st.ghost['restarts_mirror'] = Int('restarts')
     st.ghost['needs'] = Const('needs', I2B); st.ghost['qpos'] = Function('qpos', IntSort(), IntSort()); st.ghost['seen_dead'] = K(IntSort(), False)
     st.ghost['reloaded'] = Const('reloaded_from_previous_tick', I2B)          # whatever the de-duplication set held at the end of the previous tick
     st.pc += [NW >= 0, Distinct(self_a, args_a, wl_a)]; assume(st, OuterInv(st))
@@ -303,7 +315,7 @@ def generate(src):
             # every pending reload for a dead worker lies inside [h0, t0)
             oblige(st, "start/drain-entry: reloads queued by the previous scan are inside the drained range  [C17]", ForAll([j], Implies(And(0 <= j, j < NW, needs0[j]), And(st.ghost['h0'] <= st.ghost['qpos'](j), st.ghost['qpos'](j) < st.ghost['t0']))))
             out = st.fork(); qpos_keep = st.ghost['qpos']; hist0 = st.ghost['hist']; t0 = st.ghost['t0']
-            havoc_loop(out, ['action', 'restarts'], GH_ALL + ['reloaded']); out.env['restarts'] = PyInt(fresh('restarts', IntSort()))
+            havoc_loop(out, ['action', RESTARTS], GH_ALL + ['reloaded']); r_ = fresh('restarts', IntSort()); out.env[RESTARTS] = PyInt(r_); out.ghost = dict(out.ghost); out.ghost['restarts_mirror'] = r_
             assume(out, Inv_drain(out)); out.pc.append(out.ghost['head'] == out.ghost['tail'])          # the only normal exit: queue empty
             out.facts.append(ForAll([p], Implies(p < t0, out.ghost['hist'][p] == hist0[p])))               # FIFO: entries already queued are not rewritten
             out.facts.append(ForAll([p], Implies(p < t0, And(out.heap.field('worker_num')[hist0[p]] == st.heap.field('worker_num')[hist0[p]], out.heap.cls_of[hist0[p]] == st.heap.cls_of[hist0[p]]))))
@@ -320,7 +332,7 @@ def generate(src):
     # =====================================================================  DRAIN ITERATION
     # ---------- verify one arbitrary iteration of the DRAIN loop body (inner while), from the drain invariant
     start = PM['start']; outer = [s for s in start.body if isinstance(s, ast.While)][0]; drain = [s for s in outer.body if isinstance(s, ast.While)][0]
-    st = init_state(""); base_heap(st); st.env = {'self': PyObj(self_a, 'pm'), 'restarts': PyInt(Int('restarts'))}
+    st = init_state(""); base_heap(st); st.env = {'self': PyObj(self_a, 'pm'), RESTARTS: PyInt(Int('restarts'))}; st.ghost['restarts_mirror'] = Int('restarts')
     st.ghost['reloaded'] = Const('reloaded', I2B)
     st.pc += [NW >= 0, Distinct(self_a, args_a, wl_a)]; assume(st, Inv_drain(st))
     exits = collections.Counter()
@@ -393,6 +405,7 @@ def generate(src):
                 if pth == 'self.args.workers': return k(st_, PyInt(NWK))
                 if pth in ('self.worker_function', 'self.args', 'work_proc.pid'): return k(st_, fresh('x'))
                 return super().ev_Attribute(e, st_, k, K)
+        ExP.inline_scope = (src, REL, 'ProcessManager')
         exp = ExP({'logger.*': noop, 'Event': h_event, 'Process': h_Process2, '*.start': h_startp, 'list.append': h_list_append, '@for': h_forp, '_wait_for_worker_startup': noop}, attr_kinds={'self.workers': 'list'})
         def p_ret(s, v):
             gx = s.ghost; hh = s.heap
@@ -453,6 +466,6 @@ def generate(src):
                          BoolVal(set(calls) <= {'process.is_alive', 'event.wait', 'suppress'} and not stores), props=['C17'])
     # os.kill appears nowhere else in the file (syntactic frame)  [C18]
     tree = src.tree(REL); kills = [n for n in ast.walk(tree) if isinstance(n, ast.Call) and ast.unparse(n.func) in ('os.kill', 'os.killpg', 'signal.pthread_kill')]
-    inside = [n for n in ast.walk(PM['start']) if isinstance(n, ast.Call) and ast.unparse(n.func) == 'os.kill']
-    oblige(sw, "process_manager/frame: os.kill is called only from the shutdown branch of start()  [C18]", BoolVal(len(kills) == len(inside) and len(kills) <= 1), props=['C18'])
+    unseen = [f"line {n.lineno}" for n in kills if (n.lineno, n.col_offset) not in kill_sites_seen]
+    oblige(sw, "process_manager/frame: every os.kill call site of the file is one the manager reaches only through the shutdown branch of start() (where its target, multiplicity and liveness are obligations)  [C18]", BoolVal(not unseen), props=['C18'])
     return {'exits': dict(exits)}
